@@ -60,6 +60,67 @@ Theorem C15_cut_inner_keeps_wf2 `{Sig} : forall E n ks e nd1 nd2 nd3 nd4 nd5 nd6
 Proof. intros E n ks e nd1 nd2 nd3 nd4 nd5 nd6 rd c w cnt w' cnt'. exact (cut_inner_edge_wf E n w ks e nd1 nd2 nd3 nd4 nd5 nd6 rd c cnt w' cnt'). Qed.
 Print Assumptions C15_cut_inner_keeps_wf2.
 
+(** The swap puts the other diagonal.  For the edge (l, r = beta2 l) between the triangles l -> a -> b -> l and
+    r -> c -> d -> r (a, b the 1- and 0-images of l; c, d those of r; six distinct non-null darts), a swap that
+    terminates normally leaves exactly: l -> d -> a -> l and r -> b -> c -> r (1-images and, inversely, 0-images), and
+    the 0- / 1-images of every other dart and all 2-images as they were: the two faces stay triangles, the edge now
+    joins the two opposite corners, the surrounding mesh is untouched.  On every well-formed map, for the program
+    regenerated from swap.rs. *)
+From HC Require Import Map2.SwapTopo.
+Import ListNotations.
+Theorem C15_swap_is_other_diagonal `{Sig} : forall E n ks e c w cnt w' cnt',
+  let l := e in let r := beta w 2 e in
+  let a := beta w 1 l in let b := beta w 0 l in let c0 := beta w 1 r in let d := beta w 0 r in
+  wf2 n w -> e < n ->
+  NoDup [l; a; b; r; c0; d] -> ~ In 0 [l; a; b; r; c0; d] ->
+  run E (swap_edge n ks e) c w cnt = (Done tt, w', cnt') ->
+  forall i x, beta w' i x =
+    if i =? 1 then (if x =? l then d else if x =? d then a else if x =? a then l else
+                    if x =? r then b else if x =? b then c0 else if x =? c0 then r else beta w 1 x)
+    else if i =? 0 then (if x =? d then l else if x =? a then d else if x =? l then a else
+                         if x =? b then r else if x =? c0 then b else if x =? r then c0 else beta w 0 x)
+    else beta w i x.
+Proof. exact swap_edge_other_diagonal. Qed.
+Print Assumptions C15_swap_is_other_diagonal.
+
+(** The cuts, in the same style: exact images after a cut that terminates normally.  Boundary edge e of the triangle
+    e -> a -> b: the result is e -> nd1 -> b and nd3 -> a -> nd2, glued along nd1 | nd2.  Inner edge (e, r) between
+    e -> a -> b and r -> c -> d: four triangles e -> nd1 -> b, nd3 -> a -> nd2, r -> nd4 -> d, nd6 -> c -> nd5, glued
+    nd1 | nd2, nd4 | nd5, e | nd6, r | nd3.  Every other image is untouched (triangles stay triangles; the
+    neighbourhood of the edited edge keeps its adjacency). *)
+Theorem C15_cut_outer_topology `{Sig} : forall E n ks e nd1 nd2 nd3 c w cnt w' cnt',
+  let a := beta w 1 e in let b := beta w 0 e in
+  NoDup [e; a; b; nd1; nd2; nd3] -> ~ In 0 [e; a; b; nd1; nd2; nd3] -> beta w 1 a = b ->
+  run E (cut_outer_edge n ks e nd1 nd2 nd3) c w cnt = (Done tt, w', cnt') ->
+  forall i x, beta w' i x =
+    if i =? 1 then (if x =? e then nd1 else if x =? nd1 then b else if x =? nd3 then a else
+                    if x =? a then nd2 else if x =? nd2 then nd3 else beta w 1 x)
+    else if i =? 0 then (if x =? nd1 then e else if x =? b then nd1 else if x =? a then nd3 else
+                         if x =? nd2 then a else if x =? nd3 then nd2 else beta w 0 x)
+    else if i =? 2 then (if x =? nd1 then nd2 else if x =? nd2 then nd1 else beta w 2 x)
+    else beta w i x.
+Proof. exact cut_outer_edge_topology. Qed.
+Print Assumptions C15_cut_outer_topology.
+
+Theorem C15_cut_inner_topology `{Sig} : forall E n ks e nd1 nd2 nd3 nd4 nd5 nd6 c w cnt w' cnt',
+  let r := beta w 2 e in
+  let a := beta w 1 e in let b := beta w 0 e in let c0 := beta w 1 r in let d := beta w 0 r in
+  NoDup [e; a; b; r; c0; d; nd1; nd2; nd3; nd4; nd5; nd6] -> ~ In 0 [e; a; b; r; c0; d; nd1; nd2; nd3; nd4; nd5; nd6] ->
+  beta w 1 a = b -> beta w 1 c0 = d ->
+  run E (cut_inner_edge n ks e nd1 nd2 nd3 nd4 nd5 nd6) c w cnt = (Done tt, w', cnt') ->
+  forall i x, beta w' i x =
+    if i =? 1 then (if x =? e then nd1 else if x =? nd1 then b else if x =? nd3 then a else if x =? a then nd2 else
+                    if x =? nd2 then nd3 else if x =? r then nd4 else if x =? nd4 then d else if x =? nd6 then c0 else
+                    if x =? c0 then nd5 else if x =? nd5 then nd6 else beta w 1 x)
+    else if i =? 0 then (if x =? nd1 then e else if x =? b then nd1 else if x =? a then nd3 else if x =? nd2 then a else
+                         if x =? nd3 then nd2 else if x =? nd4 then r else if x =? d then nd4 else if x =? c0 then nd6 else
+                         if x =? nd5 then c0 else if x =? nd6 then nd5 else beta w 0 x)
+    else if i =? 2 then (if x =? nd1 then nd2 else if x =? nd2 then nd1 else if x =? nd4 then nd5 else if x =? nd5 then nd4 else
+                         if x =? e then nd6 else if x =? nd6 then e else if x =? r then nd3 else if x =? nd3 then r else beta w 2 x)
+    else beta w i x.
+Proof. exact cut_inner_edge_topology. Qed.
+Print Assumptions C15_cut_inner_topology.
+
 (** Tie to the source: [swap_edge], [cut_outer_edge], [cut_inner_edge] -- the programs of the three theorems above --
     are, verbatim, the programs that tools/tr_kern.py regenerates from remeshing/swap.rs and remeshing/cut.rs on every
     run (Map2/GenKern.v); an edit of those kernels changes the generated file and this theorem stops compiling. *)
